@@ -44,6 +44,12 @@ NOTES = [
     "pedal/sandbox/result.py (helpers, decorators, factories, base classes inlined; undecidable conditions fork) "
     "cross-checked against the real method called on instrumented operands (harness/proxy_probe.py); a method that "
     "neither source establishes, or on which they disagree, is `opaque` and the gen_* theorems fail",
+    "the instrumented operands of that measurement carry an attribute (an instrumented decoy) for every name the proxy "
+    "class itself uses (vocabulary read from result.py): a method that reaches the student's `value` / `_actual_value` / "
+    "... instead of the wrapped object fits no plan; a PLAIN other operand carries the public names only (an object that "
+    "answers the proxy's reserved underscore names is not distinguishable from a proxy by design)",
+    "attribute collisions are not part of the Lean model (a value has no attributes there): the family is covered by "
+    "the measurement above (=> opaque plans => gen_* fail) and by a search-only stream with CPython as the oracle",
 ]
 
 
@@ -105,6 +111,8 @@ def builtin_cases(rng, tier):
     for op in pc.CONTAINER2:
         for l, r in pairs:
             out.append({"family": "container", "op": op, "left": l, "right": r})
+            # the key / needle a call() result too (search only: see correspond)
+            out.append({"family": "container", "op": op, "left": l, "right": r, "placement": "both"})
     for v in vals:
         for c in pc.BUILTIN_CLASSES:
             out.append({"family": "isinstance", "op": "isinstance", "left": v, "cls": c})
@@ -259,11 +267,13 @@ def correspond(rng, tier, driver):
     cases += builtin_cases(rng, tier)
     cases += user_cases(rng, 250 if tier == "quick" else 6000)
     # student values whose attribute names collide with the proxy's own vocabulary (a sample: the search runs them all)
+    # (not those with a cause of their own, nor values claiming a second class: the model has one class per value)
     collide = [c for c in pc.collide_cases(rng, tier, budget=0 if tier == "quick" else 200)
-               if pc.structural_cause(c) is None]
+               if not any(s.get("klass") for s in c["classes"]) and pc.structural_cause(c) is None]
     cases += collide if tier != "quick" else rng.sample(collide, min(1500, len(collide)))
-    cases = [c for c in cases if c["family"] not in ("extra", "len_fn")]
-    res.cases = cases
+    res.cases = cases       # the search runs all of them
+    cases = [c for c in cases if c["family"] not in ("extra", "len_fn")
+             and not (c["family"] == "container" and c.get("placement") == "both")]
     lines, meta = [], []
     for case in cases:
         f = pc.case_function(case)
@@ -306,7 +316,16 @@ def search(rng, tier, broken, corr):
     info = {"rule": "oracle = the same operation on the raw value(s): value => equal value (type and ==), no stdout, not "
                     "NotImplemented; raises => raises. Cases: corpus, the correspondence cases, sampled-only extras "
                     "(pow with modulus, round(x, n), format specs, f-strings, sum, sorted, replacement len()), more seeded "
-                    "student-class hierarchies; thorough: every builtin cell",
+                    "student-class hierarchies; thorough: every builtin cell; container operations also with the key / "
+                    "needle proxied; COLLIDING VALUES: the names SandboxResult itself uses are read from the tree under test "
+                    "(ASSIGNABLE_ATTRS, identifier string constants, attribute / parameter / class / module names of "
+                    "result.py + underscore and dunder-ish variants) and student values carrying exactly those names - as "
+                    "instance / class attribute, property, method, slot, namedtuple / dataclass field, key of an attribute-"
+                    "dict, Enum / IntEnum / str-Enum member, through a catch-all __getattr__ / __getattribute__, or claiming "
+                    "another __class__ - are put through the whole battery (every conversion, operators in all placements "
+                    "incl. dunders that read the same field of the OTHER operand, containers, isinstance, extras, "
+                    "dict lookup / set membership); a plain operand that ANSWERS the proxy's reserved underscore names is "
+                    "outside (counted in collide.distribution)",
             "evaluations": 0, "distinct_nontrivial": 0, "samples": []}
     failures = {}
     nt = set()
@@ -315,8 +334,10 @@ def search(rng, tier, broken, corr):
     cases += extra_cases(rng, tier)
     n_user = (600 if tier == "quick" else 12000) * (3 if broken else 1)
     cases += user_cases(rng, n_user)
+    pc.COLLIDE_STATS.clear()
     collide = pc.collide_cases(rng, tier)
-    info["collide"] = {"cases": len(collide), "vocabulary": pc.vocabulary(), "shadowed": sorted(pc.shadowed_names())}
+    info["collide"] = {"cases": len(collide), "vocabulary": pc.vocabulary(), "shadowed": sorted(pc.shadowed_names()),
+                       "distribution": dict(sorted(pc.COLLIDE_STATS.items()))}
     cases += collide
     for case in cases:
         info["evaluations"] += 1
